@@ -156,6 +156,13 @@ static std::string build_http(FuzzedDataProvider &fdp, std::string const &tag) {
         static const char *methods[] = {"GET", "POST", "PUT", "", "G E T", "POST\x01", "HEAD", "OPTIONS"};
         std::string script, query, uri = build_request_meta(fdp, tag, script, query);
         if (fdp.ConsumeIntegralInRange<int>(0, 15) == 0) uri = fdp.ConsumeRandomLengthString(30);
+        // the other request-target forms of RFC 7230 5.3 (absolute, authority, asterisk) and degenerate relatives
+        else if (fdp.ConsumeIntegralInRange<int>(0, 11) == 1) {
+            static const char *forms[] = {"http://localhost", "http://localhost/", "http://h?x=1", "https://h", "http://", "http:", "http://h:80/sync?it=", "https://user@h:1/async?it=", "//h/sync", "*",
+                                          "localhost:80", "?", "?it=", "#", "/sync#frag", "http://h#f", "ftp://h", "HTTP://H", "/%", "/%zz", "/sync/%00", "/\x7f", ""};
+            uri = forms[fdp.ConsumeIntegralInRange<int>(0, 22)];
+            if (!uri.empty() && uri.back() == '=') uri += tag;
+        }
         static const char *vers[] = {"HTTP/1.0", "HTTP/1.1", "HTTP/2.0", "", "HTTP/1.1 extra"};
         out += std::string(methods[fdp.ConsumeIntegralInRange<int>(0, 7)]) + " " + uri + " " + vers[fdp.ConsumeIntegralInRange<int>(0, 4)] + (fdp.ConsumeIntegralInRange<int>(0, 20) ? "\r\n" : "\n");
         std::string body, ctype;
